@@ -18,16 +18,16 @@ import (
 // It is plain data with a canonical JSON form: the journal entry, the replay
 // file, the corpus file, the evidence sample and the hash key.
 type Case struct {
-	Prop string          `json:"prop"`
-	Reps  int             `json:"reps,omitempty"`
-	Entry string          `json:"entry,omitempty"` // "call" (default) | "convert" | "redefine"
+	Prop  string `json:"prop"`
+	Reps  int    `json:"reps,omitempty"`
+	Entry string `json:"entry,omitempty"` // "call" (default) | "convert" | "redefine"
 	// Filter (entry "redefine"): when HasFilter, Redefine gets an input
 	// filter accepting exactly these universe types.
-	Filter    []int `json:"filter,omitempty"`
-	HasFilter bool  `json:"hasFilter,omitempty"`
-	Sc    *Scenario       `json:"sc,omitempty"`
-	X    json.RawMessage `json:"x,omitempty"` // property-specific payload
-	Note string          `json:"note,omitempty"`
+	Filter    []int           `json:"filter,omitempty"`
+	HasFilter bool            `json:"hasFilter,omitempty"`
+	Sc        *Scenario       `json:"sc,omitempty"`
+	X         json.RawMessage `json:"x,omitempty"` // property-specific payload
+	Note      string          `json:"note,omitempty"`
 }
 
 // Verdict is what an oracle says about one case.
